@@ -97,7 +97,7 @@ static int add_size (int *sizes, int n, int v)
 }
 
 static void cmd_case (const char *cname, int id, const Fmt *f, int ch, int mode, int preset, int kind)
-{	static int sizes [1600] ; int ns = 0, own = own_size (cname), top, query = is_query (cname), strc = is_string_cmd (cname) ; SNDFILE *sf ;
+{	static int sizes [80000] ; int ns = 0, own = own_size (cname), top, query = is_query (cname), strc = is_string_cmd (cname) ; SNDFILE *sf ;
 	char rs [96] ; long calls = 0 ;
 	static const int others [] = { 4, 8, 24, 32, 64, 272, 864, 2308, 28004, 16992, 18436, 32768, 65536 } ;
 
